@@ -2166,8 +2166,12 @@ func (c *OutputConfig) WriteLine(file OutWriter) error {
 				valAtIdx = valAtIdx * col.Modifier
 			}
 			outLine.Add(col.FormatStr, valAtIdx)
+		case *bool:
+			outLine.Add(col.FormatStr, *v)
 		default:
-			fmt.Println("unknown")
+			// every other bound variable (named integer kinds such as CropType or DateFormat,
+			// elements of integer slices, ...): one field per configured column in any case
+			outLine.Add(col.FormatStr, c.valueByReflection(col.valueRef, col.VarIndex1))
 		}
 	}
 	var err error
@@ -2178,6 +2182,31 @@ func (c *OutputConfig) WriteLine(file OutWriter) error {
 	}
 
 	return err
+}
+
+// valueByReflection returns the value of a bound variable that has no case of its own in WriteLine:
+// variables of a basic kind (also of named types) and elements of slices of such. Everything that
+// cannot be written as a value (functions, channels, maps, pointers, structs, an index beyond the
+// length of a slice) yields the not-available text.
+func (c *OutputConfig) valueByReflection(valueRef interface{}, index int) interface{} {
+	v := reflect.ValueOf(valueRef)
+	if v.Kind() != reflect.Ptr || v.IsNil() {
+		return c.NotAvailableValue
+	}
+	v = v.Elem()
+	if v.Kind() == reflect.Slice {
+		if index < 0 || index >= v.Len() {
+			return c.NotAvailableValue
+		}
+		v = v.Index(index)
+	}
+	switch v.Kind() {
+	case reflect.Bool, reflect.String, reflect.Float32, reflect.Float64,
+		reflect.Int, reflect.Int8, reflect.Int16, reflect.Int32, reflect.Int64,
+		reflect.Uint, reflect.Uint8, reflect.Uint16, reflect.Uint32, reflect.Uint64:
+		return v.Interface()
+	}
+	return c.NotAvailableValue
 }
 
 // Alignment for column texts
